@@ -104,10 +104,12 @@ class Adapter(EnvAdapter):
             def reset(self, key):
                 j = key[1] % bs.shape[0]
                 body_state = bs[j]
-                head = Position(row=sc[j, 0], col=sc[j, 1])
-                state = State(key=key, body=body_state > 0, body_state=body_state, head_position=head,
-                              tail=body_state == 1, fruit_position=Position(row=sc[j, 2], col=sc[j, 3]), length=sc[j, 4],
-                              step_count=jnp.array(0, jnp.int32), action_mask=self._get_action_mask(head, body_state))
+                head = Position(row=sc[j, 0], col=sc[j, 1])     # (a plain NamedTuple of two scalars)
+                tpl, _ = super().reset(key)          # the library's own reset state: carries every field State has
+                state = inject.state_like(
+                    tpl, key=key, body=body_state > 0, body_state=body_state, head_position=head, tail=body_state == 1,
+                    fruit_position=inject.state_like(tpl.fruit_position, row=sc[j, 2], col=sc[j, 3]), length=sc[j, 4],
+                    step_count=jnp.array(0, jnp.int32), action_mask=self._get_action_mask(head, body_state))
                 return state, restart(observation=self._state_to_observation(state))
 
         return Injected(**cfg["ctor"])
